@@ -21,6 +21,7 @@ type RangeProver struct {
 	K     *big.Int
 	Ld    uint
 	D     []*big.Int
+	V     []*big.Int // optional: hiders v_i chosen by the (cheating) prover; default random Lm-bit values
 
 	v, dRand, vRand []*big.Int
 	v5, v5Rand      *big.Int
@@ -36,6 +37,9 @@ func (p *RangeProver) Commit() []*big.Int {
 	p.v5 = big.NewInt(0)
 	for i := range p.D {
 		p.v[i] = RandBits(pk.Params.Lm)
+		if i < len(p.V) && p.V[i] != nil {
+			p.v[i] = p.V[i]
+		}
 		p.dRand[i] = RandBits(p.Ld + pk.Params.Lh + pk.Params.Lstatzk)
 		p.vRand[i] = RandBits(pk.Params.Lm + pk.Params.Lh + pk.Params.Lstatzk)
 		p.v5.Add(p.v5, new(big.Int).Mul(p.D[i], p.v[i]))
